@@ -300,9 +300,10 @@ PathName(S, root, x, nm, fuel) == FindPath(S, root, nm, x, fuel)
 Tmp(n) == "t" \o ToString(n)
 (* one step of the user's rule on node x; result [S, new, err, partial]; a node it makes is called t<ctr> (renamed after
    its final position at the end, RenameBelow) *)
-Act(S, x, rule, atom, ctr, d) ==
+Act(S, x, rule, atom, ctr, d, use) ==
     IF ~Selected(S, x, atom) \/ rule = "keep" THEN [S |-> S, new |-> x, err |-> "", partial |-> FALSE]
     ELSE IF rule = "drop" THEN [S |-> S, new |-> None, err |-> "", partial |-> FALSE]
+    ELSE IF rule = "use" THEN [S |-> S, new |-> use, err |-> "", partial |-> FALSE]      \* an existing node is handed back
     ELSE IF rule = "bump"
          THEN LET r == Replace(S, x, [bad |-> FALSE, p |-> [S.obj[x].p EXCEPT !["a"] = (atom + 1) % 3], k |-> S.obj[x].k], Tmp(ctr))
               IN [S |-> r.S, new |-> IF r.err = "" THEN Tmp(ctr) ELSE None, err |-> r.err, partial |-> r.partial]
@@ -310,19 +311,19 @@ Act(S, x, rule, atom, ctr, d) ==
                                                 unique |-> FALSE, detached |-> FALSE], d)
               IN [S |-> r.S, new |-> IF r.err = "" THEN Tmp(ctr) ELSE None, err |-> r.err, partial |-> r.partial]
 
-RECURSIVE ExecFrom(_, _, _, _, _, _, _, _)
-ExecFrom(S, root, order, j, rule, atom, ctr, d) ==      \* result [S, err, partial, ret]
+RECURSIVE ExecFrom(_, _, _, _, _, _, _, _, _)
+ExecFrom(S, root, order, j, rule, atom, ctr, d, use) ==      \* result [S, err, partial, ret]
     IF j > Len(order) THEN [S |-> S, err |-> "", partial |-> FALSE, ret |-> root]
     ELSE LET x == order[j]
-             a == Act(S, x, rule, atom, ctr, d)
+             a == Act(S, x, rule, atom, ctr, d, use)
          IN IF a.err # "" THEN [S |-> a.S, err |-> a.err, partial |-> TRUE, ret |-> None]     \* the rule's own call failed (not wrapped)
             ELSE IF x = root THEN [S |-> a.S, err |-> "", partial |-> FALSE, ret |-> a.new]     \* the root's result is only returned
-            ELSE IF a.new = x THEN ExecFrom(a.S, root, order, j + 1, rule, atom, ctr + 1, d)
+            ELSE IF a.new = x THEN ExecFrom(a.S, root, order, j + 1, rule, atom, ctr + 1, d, use)
             ELSE IF a.new = None \/ a.S.obj[a.new].id # a.S.obj[x].id
                  THEN LET r == ReplaceWith(a.S, x, a.new) IN
                       IF r.err # "" THEN [S |-> r.S, err |-> "ASTTransformError", partial |-> TRUE, ret |-> None]
-                      ELSE ExecFrom(r.S, root, order, j + 1, rule, atom, ctr + 1, d)
-                 ELSE ExecFrom(a.S, root, order, j + 1, rule, atom, ctr + 1, d)
+                      ELSE ExecFrom(r.S, root, order, j + 1, rule, atom, ctr + 1, d, use)
+                 ELSE ExecFrom(a.S, root, order, j + 1, rule, atom, ctr + 1, d, use)
 
 (* -------- ASTTransformVisitor.transform -------- *)
 (* transform(x): an attached x is first cloned (duplicate, detached) and the clone is visited; the visit of a
@@ -393,8 +394,8 @@ Tvisit(S, n, rule, atom, nm, d) ==
         T == RenameBelow(tr.S, Names(S), tr.res, nm) IN
     [S |-> T, err |-> tr.err, partial |-> tr.err # "" /\ T # S]
 
-Texec(S, n, rule, atom, nm, d) ==
-    LET r == ExecFrom(S, n, PostOrder(S, n, Fuel(S)), 1, rule, atom, 1, d)
+Texec(S, n, rule, atom, nm, d, use) ==
+    LET r == ExecFrom(S, n, PostOrder(S, n, Fuel(S)), 1, rule, atom, 1, d, use)
     IN [S |-> RenameBelow(r.S, Names(S), r.ret, nm), err |-> r.err, partial |-> r.partial]
 
 Ok(S) == [S |-> S, err |-> "", partial |-> FALSE]
@@ -413,7 +414,7 @@ Apply(S, op, nm, d) ==
       [] op.op = "replace_with" -> ReplaceWith(S, a, H(op.b))
       [] op.op = "replace_with_none" -> ReplaceWith(S, a, None)
       [] op.op = "duplicate" -> DuplicateOp(S, a, op.mode = "detached", nm)
-      [] op.op = "texec" -> Texec(S, a, op.mode, op.atom, nm, d)
+      [] op.op = "texec" -> Texec(S, a, op.mode, op.atom, nm, d, IF op.b = 0 THEN None ELSE H(op.b))
       [] op.op = "tvisit" -> Tvisit(S, a, op.mode, op.atom, nm, d)
 
 (* the error a rejected operation surfaces with *)
